@@ -1,12 +1,14 @@
 package main
 
 import (
+	"context"
 	"database/sql"
 	"fmt"
 	"math"
 	"path/filepath"
 	"reflect"
 	"sort"
+	"time"
 
 	"github.com/akrennmair/updog/verifharness/gen"
 	"github.com/akrennmair/updog/verifharness/ix"
@@ -531,5 +533,181 @@ func c11Lookalikes(r *vf.Run) {
 				}
 			}
 		}
+	}
+}
+
+// c11ManyPlaceholders: one operator over N comparisons, each with its own placeholder (N around powers of two up to
+// 300), and mixed with literals; every argument must land in its own comparison.
+func c11ManyPlaceholders(r *vf.Run) {
+	if !r.Want("many-placeholders") {
+		return
+	}
+	ds := &gen.Dataset{ID: "many-placeholders"}
+	for i := 0; i < 700; i++ {
+		ds.Rows = append(ds.Rows, oracle.Row{"a": fmt.Sprintf("v%d", i%350), "b": fmt.Sprint(i % 3)})
+	}
+	ds.Index()
+	dir := filepath.Join(r.Scratch, "many-placeholders")
+	mustMkdir(dir)
+	path := filepath.Join(dir, "ds.updog")
+	if err := ix.Build(ix.Writers[int(r.Seed+2)%3], path, ds.Rows); err != nil {
+		r.Violation("many-placeholders", "build", err.Error())
+		return
+	}
+	db, err := sql.Open("updog", "file:"+path)
+	if err != nil {
+		r.Violation("many-placeholders", "sql.Open", err.Error())
+		return
+	}
+	poisoned := false
+	defer func() {
+		if !poisoned {
+			db.Close()
+		}
+	}()
+	for _, n := range []int{1, 2, 3, 7, 8, 9, 15, 16, 17, 18, 31, 32, 33, 63, 64, 65, 100, 128, 129, 255, 256, 257, 300} {
+		for variant := 0; variant < 3; variant++ {
+			tmpl := &oracle.Expr{Op: '|'}
+			var strs []string
+			for i := 0; i < n; i++ {
+				if variant == 2 && i%3 == 1 {
+					tmpl.Kids = append(tmpl.Kids, oracle.Eq("a", fmt.Sprintf("v%d", (i*7)%350))) // literals in between
+					continue
+				}
+				strs = append(strs, fmt.Sprintf("v%d", (i*5+variant)%350))
+				tmpl.Kids = append(tmpl.Kids, oracle.PhEq("a", int32(len(strs))))
+			}
+			if len(strs) == 0 {
+				continue
+			}
+			var e *oracle.Expr = tmpl
+			if variant == 1 {
+				e = oracle.And(oracle.Not(oracle.PhEq("b", int32(len(strs)+1))), tmpl)
+				strs = append(strs, "1")
+			}
+			gb := []string{"b"}
+			for _, prepared := range []bool{false, true} {
+				cid := fmt.Sprintf("many-placeholders/n%d/v%d/prepared=%v", n, variant, prepared)
+				if poisoned || !r.Want(cid) {
+					continue
+				}
+				text := gen.FormatQuery(e, gb)
+				args := make([]any, len(strs))
+				for i, a := range strs {
+					args[i] = a
+				}
+				var rows *sql.Rows
+				var qerr error
+				panicked, msg, _ := vf.Try(func() {
+					if prepared {
+						st, err := db.Prepare(text)
+						if err != nil {
+							qerr = err
+							return
+						}
+						defer st.Close()
+						// twice with different arguments
+						if rows, qerr = st.Query(args...); qerr == nil {
+							rows.Close()
+						}
+						rows, qerr = st.Query(args...)
+					} else {
+						rows, qerr = db.Query(text, args...)
+					}
+				})
+				r.Eval(1)
+				r.Distinct(cid)
+				r.Count("bindings_with_many_placeholders", 1)
+				r.Max("placeholders_in_one_statement", int64(len(strs)))
+				w := map[string]any{"comparisons": n, "placeholders": len(strs), "prepared": prepared, "text": head(text, 400)}
+				if panicked {
+					w["panic"] = msg
+					r.Violation(cid, "panic", w)
+					poisoned = true
+					continue
+				}
+				if p := c11Check(ds, e, gb, strs, rows, qerr); p != "" {
+					w["problem"] = head(p, 800)
+					r.Violation(cid, "rows", w)
+				}
+			}
+		}
+	}
+}
+
+// c11Cancelled: an execution of a prepared statement abandoned by its context (deadline inside the evaluation) must not
+// influence later executions of that statement with other arguments.
+func c11Cancelled(r *vf.Run) {
+	if !r.Want("cancelled-execution") {
+		return
+	}
+	// a slow query: group-by over two columns of 1200 values each on the rows of k = "big"
+	ds := &gen.Dataset{ID: "cancelled"}
+	for i := 0; i < 2400; i++ {
+		k := "big"
+		if i%8 == 0 {
+			k = fmt.Sprintf("small%d", i%5)
+		}
+		ds.Rows = append(ds.Rows, oracle.Row{"k": k, "u": fmt.Sprintf("u%d", i%1200), "v": fmt.Sprintf("v%d", (i*7)%1200)})
+	}
+	ds.Index()
+	dir := filepath.Join(r.Scratch, "cancelled")
+	mustMkdir(dir)
+	path := filepath.Join(dir, "ds.updog")
+	if err := ix.Build(ix.WriterMemFile, path, ds.Rows); err != nil {
+		r.Violation("cancelled-execution", "build", err.Error())
+		return
+	}
+	for _, opts := range []string{"", "?lrucache=true&lrucachesize=1000000"} {
+		cid := "cancelled-execution/" + opts
+		db, err := sql.Open("updog", "file:"+path+opts)
+		if err != nil {
+			r.Violation(cid, "sql.Open", err.Error())
+			return
+		}
+		tmpl, gb := oracle.PhEq("k", 1), []string{"u", "v"}
+		text := gen.FormatQuery(tmpl, gb)
+		abandoned := 0
+		panicked, msg, _ := vf.Try(func() {
+			st, err := db.Prepare(text)
+			if err != nil {
+				r.Violation(cid, "prepare", err.Error())
+				return
+			}
+			defer st.Close()
+			for round := 0; round < 3; round++ {
+				// the slow execution, abandoned after a few milliseconds
+				ctx, cancel := context.WithTimeout(context.Background(), time.Duration(3+round*15)*time.Millisecond)
+				rows, qerr := st.QueryContext(ctx, "big")
+				if qerr != nil {
+					abandoned++
+				} else if p := c11Check(ds, tmpl, gb, []string{"big"}, rows, nil); p != "" && ctx.Err() == nil {
+					r.Violation(cid, "rows", map[string]any{"execution": "the slow one, not abandoned", "problem": head(p, 600)})
+				}
+				cancel()
+				// then quick executions with other arguments under a context that can be cancelled (but is not)
+				for i := 0; i < 4; i++ {
+					arg := fmt.Sprintf("small%d", (i+round)%5)
+					ctx2, cancel2 := context.WithCancel(context.Background())
+					rows, qerr := st.QueryContext(ctx2, arg)
+					r.Eval(1)
+					p := c11Check(ds, tmpl, gb, []string{arg}, rows, qerr)
+					cancel2()
+					if p != "" {
+						r.Violation(cid, "execution-after-an-abandoned-one", map[string]any{"text": text, "argument": arg, "round": round, "executions_abandoned_so_far": abandoned, "problem": head(p, 800)})
+						return
+					}
+				}
+			}
+		})
+		if panicked {
+			r.Violation(cid, "panic", map[string]any{"panic": msg})
+			return // the handle may be poisoned: not closed
+		}
+		r.Count("executions_abandoned_by_their_context", int64(abandoned))
+		r.Distinct(cid)
+		// give an abandoned evaluation time to finish before the index goes away
+		time.Sleep(1500 * time.Millisecond)
+		db.Close()
 	}
 }
